@@ -10,6 +10,7 @@ import (
 	"go/types"
 	"math"
 	"net/http"
+	"net/netip"
 	"net/textproto"
 	"net/url"
 	"path"
@@ -1645,4 +1646,30 @@ func init() {
 		}
 		return iface{t: in.t, v: out}
 	}
+}
+
+// ---------------------------------------------------------------------
+// net/netip: addresses are native handles (concrete text only)
+
+type nativeAddr struct{ a netip.Addr }
+
+func (*nativeAddr) isNativeHandle() {}
+
+func init() {
+	externals["net/netip.ParseAddr"] = func(fr *frame, a []value) value {
+		s, ok := a[0].(string)
+		if !ok {
+			panic(unsupported{"netip.ParseAddr of a symbolic string"})
+		}
+		addr, err := netip.ParseAddr(s)
+		if err != nil {
+			return tuple{&nativeAddr{}, fr.i.nativeError(fr, err)}
+		}
+		return tuple{&nativeAddr{addr}, iface{}}
+	}
+	externals["(net/netip.Addr).Is4"] = func(fr *frame, a []value) value { return a[0].(*nativeAddr).a.Is4() }
+	externals["(net/netip.Addr).Is6"] = func(fr *frame, a []value) value { return a[0].(*nativeAddr).a.Is6() }
+	externals["(net/netip.Addr).Is4In6"] = func(fr *frame, a []value) value { return a[0].(*nativeAddr).a.Is4In6() }
+	externals["(net/netip.Addr).IsValid"] = func(fr *frame, a []value) value { return a[0].(*nativeAddr).a.IsValid() }
+	externals["(net/netip.Addr).String"] = func(fr *frame, a []value) value { return a[0].(*nativeAddr).a.String() }
 }
